@@ -54,6 +54,7 @@ package gnmi
 //@ iface Client.Capabilities(ctx, r) (resp, err)
 //@   modifies nothing
 //@   ensures err == nil ==> resp != nil
+//@   ensures errWF(err)
 
 //@ ghost lastConnGetOK bool
 //@ ghost connects int
